@@ -383,6 +383,12 @@ class VServer(object):
         self.wire = Wire(self, self.fss, is_root=True)
         self.connected = True
 
+    def set_available_space(self, nbytes):
+        """Pin what the storage server believes is free on its disk (before reserved space is
+        subtracted elsewhere): affects allocate_buckets and the advertised maximum share size."""
+        self.ss.get_available_space = lambda: nbytes
+        self.wire.version = self.fss.remote_get_version()
+
     def sharedir(self, si):
         from allmydata.storage.server import storage_index_to_dir
         return os.path.join(self.storedir, "shares", storage_index_to_dir(si))
